@@ -34,7 +34,10 @@ def make_table(spec):
     dtypes = spec.get('dtypes', {})
     n = len(data[cols[0]]) if cols else 0
     index = spec.get('index')
-    idx = pd.Index(index) if index is not None else pd.RangeIndex(n)
+    if index is not None and len(index) and isinstance(index[0], (list, tuple)):
+        idx = pd.MultiIndex.from_tuples([tuple(x) for x in index])
+    else:
+        idx = pd.Index(index) if index is not None else pd.RangeIndex(n)
     series = {}
     for c in cols:
         vals = data[c]
@@ -209,6 +212,10 @@ def sim_function(name):
         return neg_len_diff
     if name == 'user_signed':
         return signed_overlap
+    if name == 'user_nan':
+        return nan_on_equal_length
+    if name == 'user_jitter':
+        return jitter_overlap
     if name == 'user_nw':
         return sm.NeedlemanWunsch().get_raw_score
     raise ValueError(name)
@@ -230,6 +237,18 @@ def neg_len_diff(x, y):
 def signed_overlap(x, y):
     # takes both signs
     return len(set(x) & set(y)) - 2
+
+
+def nan_on_equal_length(x, y):
+    # not a number for ordinary, non-missing pairs (inf - inf, 0/0 of a home-made measure)
+    return float('nan') if len(x) == len(y) else float(len(x) - len(y))
+
+
+def jitter_overlap(x, y):
+    # work per pair varies (0-3 ms): with n_jobs > 1 a later chunk can finish before an earlier one
+    import time
+    time.sleep((len(x) * 7 + len(y) * 3) % 4 / 1000.0)
+    return len(set(x) & set(y))
 
 
 class UserSim(object):
@@ -270,7 +289,7 @@ def join_kwargs(call):
 
 PRESENTATION = Counter()      # what exec_call did beyond the plain call (reported by the shard)
 WARM_RATE = 8                 # percent of calls whose tables "were used before"
-WARM_APIS = None
+LOKY_SAMPLE = 8              # per mille of the calls with 2 <= n_jobs <= 4
 
 
 class HarnessError(Exception):
@@ -358,8 +377,24 @@ def _exec_call_backend(ssj, call, objs=None):
     """Run one API call under the joblib backend named by call['backend'] ('threading' by default:
     the same job functions on the same chunks, in-process and therefore monitored; 'loky' = the
     library's default process pool)."""
-    backend = call.get('backend', 'threading')
-    if call.get('n_jobs', 1) == 1 or backend == 'loky':
+    backend = call.get('backend')
+    nj = call.get('n_jobs', 1)
+    if backend is None:
+        backend = 'threading'
+        # a deterministic ~1.5 % of the small parallel calls of every check run in real worker
+        # processes (the library's default backend): what differs only there (lazily initialised
+        # module state, lossy pickling, result order) is otherwise seen by the loky shards alone
+        if isinstance(nj, int) and not isinstance(nj, bool) and 2 <= nj <= 4 and LOKY_SAMPLE:
+            try:
+                h = zlib.crc32(json.dumps(jsonable([call.get('api'), call.get('threshold'), call.get('filter'),
+                                                     call.get('ltable', {}).get('data') if isinstance(call.get('ltable'), dict) else None]),
+                                          sort_keys=True, default=repr).encode())
+            except Exception:
+                h = 1
+            if h % 1000 < LOKY_SAMPLE:
+                backend = 'loky'
+                PRESENTATION['backend_loky'] += 1
+    if nj == 1 or backend == 'loky':
         return _exec_call(ssj, call, objs)
     import joblib
     with joblib.parallel_config(backend=backend):
